@@ -215,6 +215,30 @@ htp_status_t htp_ch_urlencoded_callback_request_line(htp_tx_t *tx) {
 }
 
 /**
+ * Called when moving the text parts of a Multipart parser into the transaction fails part of the
+ * way: names and values of the parts before first_unowned already belong to the transaction. The
+ * parser is told that it gave up its data, after the data it still owns has been released.
+ *
+ * @param[in] mpartp
+ * @param[in] body
+ * @param[in] first_unowned
+ */
+static void htp_ch_multipart_abandon_params(htp_mpartp_t *mpartp, htp_multipart_t *body, size_t first_unowned) {
+    for (size_t i = first_unowned, n = htp_list_size(body->parts); i < n; i++) {
+        htp_multipart_part_t *part = htp_list_get(body->parts, i);
+
+        if (part->type == MULTIPART_PART_TEXT) {
+            bstr_free(part->name);
+            part->name = NULL;
+            bstr_free(part->value);
+            part->value = NULL;
+        }
+    }
+
+    mpartp->gave_up_data = 1;
+}
+
+/**
  * Finalize Multipart processing.
  * 
  * @param[in] d
@@ -241,7 +265,10 @@ htp_status_t htp_ch_multipart_callback_request_body_data(htp_tx_data_t *d) {
             // Use text parameters.
             if (part->type == MULTIPART_PART_TEXT) {
                 htp_param_t *param = calloc(1, sizeof (htp_param_t));
-                if (param == NULL) return HTP_ERROR;
+                if (param == NULL) {
+                    htp_ch_multipart_abandon_params(tx->request_mpartp, body, i);
+                    return HTP_ERROR;
+                }
                 param->name = part->name;
                 param->value = part->value;
                 param->source = HTP_SOURCE_BODY;
@@ -250,6 +277,7 @@ htp_status_t htp_ch_multipart_callback_request_body_data(htp_tx_data_t *d) {
 
                 if (htp_tx_req_add_param(tx, param) != HTP_OK) {
                     free(param);
+                    htp_ch_multipart_abandon_params(tx->request_mpartp, body, i);
                     return HTP_ERROR;
                 }
             }
